@@ -24,6 +24,13 @@ def build(tier, rnd):
     kinds = ["insert", "insert", "ctas", "create_view", "bare", "insert_cols", "update_from", "merge", "with_insert", "delete", "truncate", "create_like", "insert_values"]
     for i in range(n):
         out.append((("random", i), g.statement(rnd.choice([1, 1, 2, 2, 3]), kinds=kinds)))
+    # a FROM item that is a join wholly enclosed in parentheses (some grammars give it a parse-tree shape of its own), alone or followed by a join
+    from vlib.sqlgen import Base, Group, Item, Nested, Select, Stmt, col
+    for i in range(6 if tier == "quick" else 60):
+        a, b, c = Base(f"tb_pa{i}", rnd.choice([None, "sa"]), f"a{i}"), Base(f"tb_pb{i}", None, f"b{i}" if i % 2 else None), Base(f"tb_pc{i}", None, f"c{i}")
+        grp = Nested(Group(a, [(rnd.choice(["inner", "left"]), b, "on")]))
+        q = Select([Item(col("c_1", a.key())), Item(col("c_2", b.key()), "o_2")], [Group(grp, [("inner", c, "on")] if i % 3 == 2 else [])])
+        out.append((("paren_from_item", i), Stmt(rnd.choice(["insert", "ctas", "bare"]) if i % 2 else "insert", Base(f"tb_pt{i}"), q)))
     d1 = sqlgen.enumerate_depth1(2)
     rnd.shuffle(d1)
     out += d1[: (60 if tier == "quick" else 1200)]
